@@ -248,7 +248,7 @@ func ensureBinary(log io.Writer) string {
 	copyFile(filepath.Join(repoCopy, "go.sum"), filepath.Join(simCopy, "go.sum"))
 	var cb bytes.Buffer
 	tmpBin := filepath.Join(scratch, "sim.test")
-	if err := run(simCopy, env, &cb, goBin, "test", "-c", "-tags", "verif", "-o", tmpBin, "."); err != nil {
+	if err := run(simCopy, env, &cb, goBin, "test", "-c", "-tags", "verif", "-ldflags=-checklinkname=0", "-o", tmpBin, "."); err != nil {
 		fatal(2, "harness build failed:\n%s", tail(cb.String(), 8000))
 	}
 	os.MkdirAll(binDir, 0o755)
